@@ -11,7 +11,7 @@ use serde_json::json;
 
 pub fn run(ctx: &Ctx) -> i32 {
     let mon = Mon::new();
-    let n = ctx.tier.pick(480, 6000);
+    let n = ctx.tier.pick(1200, 9000);
     par_cases(ctx, &mon, "hist", n, |cc, rng, l| {
         let case = HistCase::random(rng, ctx.tier.pick(12, 30), ctx.tier.pick(10, 24), 6, false);
         with_cfg!(case.cfg, TC, { block_on(run_case::<TC>(cc, &case, l)) })
